@@ -333,11 +333,6 @@ def run(v, params, kind="tuple", delivery="list", on_token=None):
         import pickle
 
         original = make_tokenizer(validator, params, how)
-        held = None
-        if prior is not None and opts["clone"].endswith("+original-used-first"):
-            frames1, _ = FRAME_KINDS[kind](prior)
-            res = original.tokenize(CountingSource(frames1))
-            held = (res, [(list(t[0]), t[1], t[2]) for t in res])
         kind_ = opts["clone"].split("+")[0]
         if kind_ == "pickle":
             try:
@@ -346,6 +341,12 @@ def run(v, params, kind="tuple", delivery="list", on_token=None):
                 tk = copy.deepcopy(original)  # a lambda validator cannot be pickled: that is the caller's business
         else:
             tk = getattr(copy, kind_)(original)
+        held = None
+        if prior is not None and opts["clone"].endswith("+original-used-first"):
+            # the copy is taken from the fresh tokenizer; then the original is used, then the copy
+            frames1, _ = FRAME_KINDS[kind](prior)
+            res = original.tokenize(CountingSource(frames1))
+            held = (res, [(list(t[0]), t[1], t[2]) for t in res])
         src = CountingSource(frames)
         tokens = deliver(tk, src, mode, on_token)
         if held is not None:
